@@ -127,8 +127,9 @@ def run_batch(pid, tier, base_seed, nruns, wall_cap):
             total['capped'] = True
             for f in futs:
                 f.cancel()
+            procs = list((getattr(ex, '_processes', None) or {}).values())
             ex.shutdown(wait=False, cancel_futures=True)
-            for p in list(getattr(ex, '_processes', {}).values()):
+            for p in procs:
                 try:
                     p.terminate()
                 except Exception:   # noqa
